@@ -36,7 +36,7 @@ def main(argv):
             else:              # another valid configuration variant
                 cfg = dict(b['cfg'])
                 cfg['fac'] = 'import' if cfg.get('fac') == 'create' else 'create'
-                cfg['sf_prefix'] = rng.choice([None, ['Zed']])
+                cfg['sf_prefix'] = rng.choice([None, ['Zed'], ['My', 'Lib'], ['My_Lib'], ['My', 'Lib']])   # the last two give the same file names (K10) but other namespaces
             steps.append([mi, cfg])
         # every third history keeps ONE Configuration object alive and edits its fields between builds
         hists.append({'models': models, 'steps': steps, 'share_builder': len(hists) % 2 == 1, 'reuse_cfg': len(hists) % 3 == 1})
